@@ -21,8 +21,11 @@
 (***************************************************************************)
 EXTENDS Admission, Json
 
-VARIABLES l, viol
-tvars == <<vars, l, viol>>
+VARIABLES l, viol,
+          ct       \* session-level contact state of the scenario: [sw, self, conn, banned]
+tvars == <<vars, l, viol, ct>>
+
+NoCt == [sw |-> [out |-> FALSE, inc |-> FALSE, trk |-> FALSE], self |-> <<NoIp, 0>>, conn |-> {}, banned |-> {}]
 
 Trace == ndJsonDeserialize("trace.ndjson")
 Ev == Trace[l]
@@ -31,19 +34,20 @@ QcOf(e) == [cap |-> e.cap, port |-> e.port, cip |-> e.cip, bl |-> e.bl, pool |->
 QOf(e)  == {[a |-> x[1], s |-> x[2]] : x \in SeqSet(e.q)}
 
 TraceInit ==
-    /\ l = 2 /\ viol = ""
+    /\ l = 2 /\ viol = "" /\ ct = NoCt
     /\ Trace[1].op = "Init"
     /\ rules = {} /\ lines = <<>> /\ qc = QcOf(Trace[1]) /\ q = {} /\ out = NoOut
     /\ TLCSet(1, 1)
 
-Step(v) ==
+StepC(v) ==
     /\ l' = l + 1 /\ viol' = v
-    /\ (v = "" \/ PrintT("@@VIOL " \o ToString(l) \o " " \o v))
+    /\ IF v = "" THEN TRUE ELSE PrintT("@@VIOL " \o ToString(l) \o " " \o v)
+Step(v) == StepC(v) /\ ct' = ct
 
 TrReset ==
     /\ Ev.op = "Init"
     /\ rules' = {} /\ lines' = <<>> /\ qc' = QcOf(Ev) /\ q' = {} /\ out' = NoOut
-    /\ Step("")
+    /\ ct' = NoCt /\ StepC("")
 
 TrReinit ==
     /\ Ev.op = "Reinit"
@@ -103,10 +107,41 @@ TrQReset ==
 
 TrPanic == Ev.op = "Panic" /\ UNCHANGED vars /\ Step("C18.panic")
 
+-----------------------------------------------------------------------------
+(* Session-level contact observations (harness/c18 -mode contact): a real  *)
+(* torrent.Session on loopback addresses; its blocklist is the `rules` of  *)
+(* the preceding Reload lines (recorded when the session reports the list  *)
+(* as loaded).  Every observed contact is judged against the state at the  *)
+(* moment of the observation.                                              *)
+
+TrCInit ==
+    /\ Ev.op = "CInit" /\ UNCHANGED vars
+    /\ ct' = [sw |-> [out |-> Ev.out, inc |-> Ev.inc, trk |-> Ev.trk], self |-> <<Ev.self, Ev.sport>>,
+              conn |-> {}, banned |-> {}]
+    /\ StepC("")
+\* the torrent got its listening port
+TrCSelf  == Ev.op = "CSelf" /\ UNCHANGED vars /\ ct' = [ct EXCEPT !.self = <<Ev.self, Ev.sport>>] /\ StepC("")
+\* a connection with the client exists (handshake done) or is being set up (TCP accepted by a scripted listener)
+TrCConn  == Ev.op = "CConn" /\ UNCHANGED vars /\ ct' = [ct EXCEPT !.conn = @ \cup {Ev.ip}] /\ StepC("")
+TrCDisc  == Ev.op = "CDisc" /\ UNCHANGED vars /\ ct' = [ct EXCEPT !.conn = @ \ {Ev.ip}] /\ StepC("")
+\* the client's own state lists the IP as banned (hook H1)
+TrCBan   == Ev.op = "CBan" /\ UNCHANGED vars /\ ct' = [ct EXCEPT !.banned = @ \cup {Ev.ip}] /\ StepC("")
+\* a scripted listener on ip:port accepted a connection of the client, or the client's state shows a dial to ip
+TrCDial  == /\ Ev.op = "CDial" /\ UNCHANGED <<vars, ct>>
+            /\ StepC(DialViol(Ev.ip, Ev.port, ct.sw, ct.self, ct.conn, ct.banned))
+\* the client answered the handshake of a connection coming from ip
+TrCAccept == Ev.op = "CAccept" /\ UNCHANGED <<vars, ct>> /\ StepC(AcceptViol(Ev.ip, ct.sw))
+\* a tracker (HTTP request / UDP datagram) or a web seed listening on ip received a request
+TrCAnnounce == Ev.op = "CAnnounce" /\ UNCHANGED <<vars, ct>> /\ StepC(AnnounceViol(Ev.ip, ct.sw))
+TrCWebseed  == Ev.op = "CWebseed" /\ UNCHANGED <<vars, ct>> /\ StepC(WebseedViol(Ev.ip, ct.sw))
+\* bookkeeping lines of the harness (offers, controls, end of scenario): not judged
+TrCNote  == Ev.op \in {"CNote", "CEnd"} /\ UNCHANGED <<vars, ct>> /\ StepC("")
+
 TraceNext ==
     /\ l <= Len(Trace)
     /\ \/ TrReset \/ TrReinit \/ TrReload \/ TrQuery \/ TrResolve \/ TrPrio \/ TrInfo
        \/ TrPush \/ TrPop \/ TrQReset \/ TrPanic
+       \/ TrCInit \/ TrCSelf \/ TrCConn \/ TrCDisc \/ TrCBan \/ TrCDial \/ TrCAccept \/ TrCAnnounce \/ TrCWebseed \/ TrCNote
 
 TraceSpec == TraceInit /\ [][TraceNext]_tvars
 
